@@ -21,6 +21,17 @@ Section Paths.
 
   Definition merkle_path (p : bytes) : bytes := fold_segments (split_slash (trim_slash p)).
 
+  (* types.MerkleHelper (and the CLI's merkleHelper): what a client derives from a plain path before
+     sending MsgPostFile — the parent's address and the hash of the last segment *)
+  Fixpoint join_slash (l : list bytes) : bytes :=
+    match l with
+    | [] => []
+    | x :: r => match r with [] => x | _ => x ++ slash :: join_slash r end
+    end.
+  Definition client_split (p : bytes) : bytes * bytes :=
+    let chunks := split_slash (trim_slash p) in
+    (merkle_path (join_slash (removelast chunks)), hexH (last chunks [])).
+
   (* filetree PostFile: the stored / returned address *)
   Definition post_file_path (hash_parent hash_child : bytes) : bytes :=
     add_to_merkle hash_parent hash_child.
